@@ -302,6 +302,9 @@ func (w *world) op(line, out string) {
 	w.trace = append(w.trace, line+" => "+out)
 }
 
+// remark adds a comment to the replay trace (not an operation of the model).
+func (w *world) remark(text string) { w.trace = append(w.trace, "# "+text) }
+
 func (w *world) fail(class, what string) {
 	if len(*w.fails) < 20 {
 		*w.fails = append(*w.fails, lib.OracleFail{Class: class, What: what, Replay: strings.Join(w.trace, "\n")})
@@ -843,6 +846,7 @@ func watchCase(c *lib.Ctx, rng *lib.RNG, sc *lib.Script, fails *[]lib.OracleFail
 	nns := rng.Range(2, 3)
 	w := newWorld(c, sc, fails, 1)
 	defer w.close()
+	defer curParker.Store(nil)
 	w.op("rt 1", "ok")
 	for i := rng.Intn(6); i > 0; i-- {
 		w.mutate(rng, nns)
@@ -857,8 +861,12 @@ func watchCase(c *lib.Ctx, rng *lib.RNG, sc *lib.Script, fails *[]lib.OracleFail
 	go func() { done <- w.rt.Reconcile(w.ctx) }()
 	rounds := rng.Range(3, c.Scale(10, 25))
 	for r := 0; r < rounds; r++ {
-		for k := rng.Range(1, 4); k > 0; k-- {
-			w.mutate(rng, nns)
+		if rng.Chance(1, 3) {
+			w.parkedRepeat(rng, nns)
+		} else {
+			for k := rng.Range(1, 4); k > 0; k-- {
+				w.mutate(rng, nns)
+			}
 		}
 		got, ok := w.quiesce(10 * time.Second)
 		w.op("drain", "T "+got)
@@ -987,6 +995,196 @@ func raceCase(c *lib.Ctx, rng *lib.RNG, sc *lib.Script, fails *[]lib.OracleFail,
 	return "r:" + strings.Join(w.trace, ";")
 }
 
+// ---------------------------------------------------------------- repeated identical events while the reconciler is busy
+
+func newParker() *parker {
+	p := &parker{reached: make(chan struct{}), release: make(chan struct{})}
+	curParker.Store(p)
+	p.armed.Store(true)
+	return p
+}
+
+// wait reports whether a Load parked within d; otherwise the parker is disarmed.
+func (p *parker) wait(d time.Duration) bool {
+	select {
+	case <-p.reached:
+		return true
+	case <-time.After(d):
+		if p.armed.CompareAndSwap(true, false) {
+			return false
+		}
+		<-p.reached // a Load took the parking slot at the last moment
+		return true
+	}
+}
+
+func (p *parker) free() {
+	time.Sleep(2 * time.Millisecond) // let the stream pumps decide what to do with what was emitted meanwhile
+	close(p.release)
+	curParker.CompareAndSwap(p, nil)
+}
+
+// repeatCase (directed): Watch + Reconcile; a document is updated, the Load that the reconciler
+// runs for that event is parked after it has read the stores; the SAME document is updated again
+// (once or twice) – events identical to the one being handled, nothing else queued – optionally
+// followed by an unrelated event on the same stream; the Load is released. At quiescence the table
+// must carry the last update. (A stream that collapses a repeated notification loses it for good.)
+func repeatCase(c *lib.Ctx, rng *lib.RNG, sc *lib.Script, fails *[]lib.OracleFail, onValue bool, updates int, trailing bool) string {
+	w := newWorld(c, sc, fails, 1)
+	defer w.close()
+	defer curParker.Store(nil)
+	w.op("rt 1", "ok")
+	sid, vid, vname := 1+rng.Intn(nSpecIDs), valBase+rng.Intn(nValIDs), rng.Range(1, 4)
+	d := specDoc{id: sid, ns: 1, name: rng.Intn(4), kind: rng.Intn(3), ver: 1}
+	if onValue || rng.Bool() {
+		e := envEnt{key: 1, byID: rng.Bool(), ref: vid}
+		if !e.byID {
+			e.ref = vname
+		}
+		d.env = []envEnt{e}
+	}
+	v := valDoc{id: vid, ns: 1, name: vname, ver: 1}
+	other := specDoc{id: sid%nSpecIDs + 1, ns: 1, kind: rng.Intn(2), ver: 3}
+	otherV := valDoc{id: valBase + (vid-valBase+1)%nValIDs, ns: 1, name: 0, ver: 7}
+	w.insSpec(other)
+	w.insSpec(d)
+	w.insVal(v)
+	w.insVal(otherV)
+	if err := w.rt.Watch(w.ctx); err != nil {
+		w.fail("watch-error", err.Error())
+		return ""
+	}
+	w.op("watch", "ok")
+	w.load(nil)
+	done := make(chan error, 1)
+	go func() { done <- w.rt.Reconcile(w.ctx) }()
+	bump := func(k int) {
+		if onValue {
+			v.ver = 1 + k
+			w.updVal(v)
+		} else {
+			d.ver = 1 + k
+			w.updSpec(d)
+		}
+	}
+	p := newParker()
+	w.remark("the next Load parks at the verif yield point (stores read, table not yet written)")
+	bump(1) // the consumer's Load for this event parks after reading the stores
+	if !p.wait(5 * time.Second) {
+		w.fail("race-setup", "no Load reached the yield point within 5 s")
+		return ""
+	}
+	w.remark("the reconciler's Load for that event is parked")
+	for k := 2; k <= updates; k++ {
+		bump(k) // identical {op,id} event, emitted while the consumer is still inside the Load
+	}
+	if trailing {
+		if onValue {
+			otherV.ver++
+			w.updVal(otherV)
+		} else {
+			other.ver++
+			w.updSpec(other)
+		}
+	}
+	p.free()
+	w.remark("the parked Load is released")
+	got, ok := w.quiesce(3 * time.Second)
+	w.op("drain", "T "+got)
+	if !ok {
+		w.fail("not-converged-after-repeated-update", fmt.Sprintf("the same %s was updated %d times while the reconciler was inside the Load for the first update (trailing unrelated event: %v); 3 s later the table is [%s], the stores demand [%s]",
+			map[bool]string{false: "spec", true: "value"}[onValue], updates, trailing, got, tableString(w.target())))
+	}
+	w.takeNotes()
+	w.cancel()
+	select {
+	case <-done:
+	case <-time.After(10 * time.Second):
+		w.fail("reconcile-stuck", "Reconcile did not return 10 s after its context was cancelled")
+	}
+	c.Hit(fmt.Sprintf("repeat-%s-x%d-trailing-%v", map[bool]string{false: "spec", true: "value"}[onValue], updates, trailing))
+	if c.Evaluations < 2 {
+		c.Sample(w.trace)
+	}
+	return "p:" + strings.Join(w.trace, ";")
+}
+
+// parkedRepeat (random ingredient of the Watch+Reconcile histories): update a document whose
+// event makes the reconciler load, park that Load, then – with the Load parked – repeat the same
+// (op,id) with new content once or twice and maybe add other mutations, release.
+func (w *world) parkedRepeat(rng *lib.RNG, nns int) {
+	var specIDs, valIDs []int
+	for id := 1; id <= nSpecIDs; id++ {
+		if d, ok := w.specs[id]; ok && d.ns == w.rns {
+			specIDs = append(specIDs, id)
+		}
+	}
+	for _, t := range w.target() { // values some symbol is bound to: their events make the value consumer load
+		for _, b := range t.bs {
+			dup := false
+			for _, x := range valIDs {
+				dup = dup || x == b.vid
+			}
+			if !dup {
+				valIDs = append(valIDs, b.vid)
+			}
+		}
+	}
+	sort.Ints(valIDs)
+	onValue := len(valIDs) > 0 && (len(specIDs) == 0 || rng.Bool())
+	if !onValue && len(specIDs) == 0 {
+		w.mutate(rng, nns)
+		return
+	}
+	var again func()
+	if onValue {
+		id := lib.Pick(rng, valIDs)
+		again = func() {
+			v := w.vals[id]
+			v.ver = v.ver%9 + 1
+			if rng.Chance(1, 4) {
+				v.name = rng.Intn(5)
+			}
+			w.updVal(v)
+		}
+	} else {
+		id := lib.Pick(rng, specIDs)
+		again = func() {
+			old := w.specs[id]
+			d := genSpec(rng, id, nns, w.sortedVals())
+			d.ns = old.ns
+			if rng.Bool() {
+				d.env, d.kind, d.name = old.env, old.kind, old.name
+			}
+			if d.ver == old.ver {
+				d.ver = old.ver%9 + 1
+			}
+			w.updSpec(d)
+		}
+	}
+	w.remark("the next Load parks at the verif yield point (stores read, table not yet written)")
+	p := newParker()
+	again()
+	if !p.wait(300 * time.Millisecond) {
+		w.remark("no Load within 300 ms; parking cancelled")
+		w.c.Hit("parked-repeat-no-load")
+		return
+	}
+	w.remark("a Load of the reconciler is parked")
+	if rng.Chance(3, 4) { // the next mutation repeats the previous (op,id) while the Load is parked
+		for k := rng.Range(1, 2); k > 0; k-- {
+			again()
+		}
+		w.c.Hit("parked-repeat-same-op-id")
+	}
+	for k := rng.Intn(3); k > 0; k-- {
+		w.mutate(rng, nns)
+	}
+	p.free()
+	w.remark("the parked Load is released")
+	w.c.Hit("parked-repeat")
+}
+
 // ---------------------------------------------------------------- corpus
 
 // replayCorpus runs hand-written op files: every line is executed on the implementation and
@@ -1057,18 +1255,31 @@ func replayCorpus(c *lib.Ctx, sc *lib.Script, fails *[]lib.OracleFail) {
 }
 
 func Run(c *lib.Ctx) {
-	c.Rule = "random histories (≤30 ops quick / ≤70 thorough) of insert / update / delete on the spec store (6 ids, kinds k0 k1 registered, k2 k3 unknown, 0–2 env entries by id or by name) and the value store (6 ids, 4 names) over 2–3 namespaces with Load(nil) / Load({id}) / Load({$or}) at random points, every Load observed (whole table + notifications) and compared with Uniflow.Runtime.step and with the harness's own target; plus Watch+Reconcile runs (bursts of 1–4 mutations) compared at quiescence, plus forced overlaps of a parked Load with the mutation and the other consumer (verif yield hook); non-trivial = at least two Loads and a non-empty spec store, distinct by full trace"
+	c.Rule = "random histories (≤30 ops quick / ≤70 thorough) of insert / update / delete on the spec store (6 ids, kinds k0 k1 registered, k2 k3 unknown, 0–2 env entries by id or by name) and the value store (6 ids, 4 names) over 2–3 namespaces with Load(nil) / Load({id}) / Load({$or}) at random points, every Load observed (whole table + notifications) and compared with Uniflow.Runtime.step and with the harness's own target; plus Watch+Reconcile runs (bursts of 1–4 mutations) compared at quiescence, plus forced overlaps of a parked Load with the mutation and the other consumer (verif yield hook), plus a directed family (the same spec / the same bound value updated 2–3 times while the reconciler's Load for the first update is parked, with / without an unrelated event afterwards) and the same as a random ingredient of the Watch+Reconcile histories (1 round in 3); non-trivial = at least two Loads and a non-empty spec store, distinct by full trace"
 	c.Assumptions = []string{
 		"each store mutation, each Load and each consumption of one stream event is one atomic step of the model (store mutex; loadMu of the fixed runtime)",
 		"a spec and a value keep their namespace for life (a move is delete + insert); env entries reference a value by id or by name (anonymous entries and Config.Environment are C18's subject and are not generated)",
 		"specs have no ports, so a symbol is activated iff it has a node (bound and of a registered kind); the symbol table's own behaviour is C06–C08's subject",
 		"a spec whose Bind fails may be left partially rewritten by Go (map order); it is observed only as `unbound`",
+		"the theorems C09.converges* take the two store streams as reliable FIFO queues (C13's events_exact); the directed repeat family and C09.lossy_queue_breaks_convergence show what happens otherwise",
 		"Watch+Reconcile runs are compared at quiescence only: the harness waits (≤10 s) until the table equals the target computed from its mirror of the stores",
 	}
 	c.Trusted = []string{"the harness's mirror of the two stores (checked against every mutation's outcome)", "pkg/runtime/verif_on.go (read-only table accessor)"}
 	rng := lib.NewRNG(c.Seed)
 	sc := &lib.Script{}
 	var fails []lib.OracleFail
+	runtime.VerifLoadYield = yield
+	// directed family first: repeated identical events while the reconciler is inside a Load
+	for rep := c.Scale(2, 10); rep > 0; rep-- {
+		for _, onValue := range []bool{false, true} {
+			for _, updates := range []int{2, 3} {
+				for _, trailing := range []bool{false, true} {
+					sc.Begin()
+					c.Count(repeatCase(c, rng.Fork(), sc, &fails, onValue, updates, trailing))
+				}
+			}
+		}
+	}
 	replayCorpus(c, sc, &fails)
 	n := c.Scale(400, 4000)
 	for i := 0; i < n; i++ {
@@ -1076,11 +1287,10 @@ func Run(c *lib.Ctx) {
 		c.Count(seqCase(c, rng.Fork(), sc, &fails))
 	}
 	nw := c.Scale(60, 600)
-	for i := 0; i < nw; i++ {
+	for i := 0; i < nw && len(fails) < 20; i++ { // every failing case waits out its patience: enough is enough
 		sc.Begin()
 		c.Count(watchCase(c, rng.Fork(), sc, &fails))
 	}
-	runtime.VerifLoadYield = yield
 	nr := c.Scale(10, 60)
 	for i := 0; i < nr; i++ {
 		sc.Begin()
